@@ -386,8 +386,46 @@ func runCheck(repo, verif, prop, tier, only string, verbose, writeEvidence bool)
 		exit = 3
 	}
 	bounded := runBounded(verif, prop)
+	if tier == "thorough" {
+		// thorough tier: the scenario of every defect ever repaired for this property is replayed on the real code of
+		// the tree under check (the replay adapters of known_findings.txt `fixed:` lines): a scenario that fails again
+		// is a violation with a failing input
+		done := map[string]bool{}
+		for _, kf := range known {
+			if !kf.Fixed || kf.Prop != prop || kf.Oblig == "" {
+				continue
+			}
+			for name, fr := range fixedReplays {
+				if !strings.HasPrefix(name, kf.Oblig) || done[fr.tmpl+fr.run] {
+					continue
+				}
+				done[fr.tmpl+fr.run] = true
+				tb, err := os.ReadFile(filepath.Join(verif, "replay", fr.tmpl))
+				if err != nil {
+					continue
+				}
+				src := strings.ReplaceAll(string(tb), "{{ROUND}}", "7")
+				failed, out := runOverlayTest(eng, fr.pkg, "zz_verif_replay_test.go", src, fr.run)
+				res := boundedRes{Name: "scenario-replay:" + strings.TrimPrefix(fr.run, "race:"), Bound: "one scripted scenario of a repaired defect, run on the real code (a regression test, not a proof)", OK: !failed, Out: "template " + fr.tmpl}
+				if failed {
+					rp := filepath.Join(replayDir, prop+"-scenario-"+sanitizeFile(fr.run)+".json")
+					jb, _ := json.MarshalIndent(map[string]any{"property": prop, "obligation": name, "replay": "the scenario of a repaired defect fails again on this tree", "replay_output": trunc2(out, 4000),
+						"replay_cmd": "cd /repo && go test -overlay <overlay with " + fr.tmpl + "> -vet=off -count=1 -run " + strings.TrimPrefix(fr.run, "race:") + " ./" + fr.pkg + "/"}, "", " ")
+					os.WriteFile(rp, jb, 0o644)
+					fmt.Printf("VIOLATION property=%s replay=%s obligation=%s scenario of a repaired defect reproduces on the real code\n", prop, rp, name)
+					violations++
+					exit = 1
+					res.Out = "FAILED: " + trunc2(out, 600)
+				}
+				bounded = append(bounded, res)
+			}
+		}
+	}
 	for _, b := range bounded {
 		if !b.OK {
+			if strings.HasPrefix(b.Name, "scenario-replay:") {
+				continue // already reported above
+			}
 			if strings.Contains(b.Out, "VIOLATION(bounded)") {
 				rp := filepath.Join(replayDir, prop+"-bounded-"+sanitizeFile(b.Name)+".json")
 				jb, _ := json.MarshalIndent(map[string]any{"property": prop, "obligation": "bounded:" + b.Name, "bound": b.Bound, "replay": "failing input found by the bounded differential check on the real code", "replay_output": b.Out}, "", " ")
